@@ -64,6 +64,21 @@ def vc_stamps(run, spec):
 def run_stamp(case):
     run = schedlab.Run(case, clause="C14.no_exception")
     run.go()
+    return judge_stamp(run, case)
+
+
+def run_twin(case):
+    """two schedulers of one kind with the same table in one environment (the egress ports of a switch), each serving its own
+    workload: the stamps of one are no business of the other"""
+    first = schedlab.Run(case["scheds"][0], clause="C14.no_exception")
+    second = schedlab.Run(case["scheds"][1], clause="C14.no_exception", lab=first.lab)
+    first.go()
+    a = judge_stamp(first, case["scheds"][0])
+    b = judge_stamp(second, case["scheds"][1])
+    return {"nontrivial": a["nontrivial"] or b["nontrivial"], "classes": sorted(set(a["classes"]) | set(b["classes"]) | {"twin schedulers"})}
+
+
+def judge_stamp(run, case):
     run.check_all_exited()
     exact = case["exact"]
     tl = run.timeline(exact)
@@ -191,6 +206,18 @@ def strategy_for(kind):
     return strat
 
 
+def twin_strategy(tier):
+    def pair(kind):
+        base = strategy_for(kind)(tier)
+        return st.tuples(base, base).filter(lambda t: t[0]["exact"] == t[1]["exact"] and t[0]["rate"] < 2 ** 30 and t[1]["rate"] < 2 ** 30).map(
+            lambda t: {"scheds": [t[0], dict(t[1], kind=t[0]["kind"], table=t[0]["table"], f2c=t[0]["f2c"],
+                                                                         rate=t[0]["rate"], exact=t[0]["exact"],
+                                                                         wl=[w for w in t[1]["wl"]
+                                                                             if w[1] in {f for f, _ in (t[0]["f2c"] or t[0]["table"])}]
+                                                                         or t[0]["wl"])]})
+    return st.sampled_from(["WFQ", "WFQ", "VC"]).flatmap(pair)
+
+
 PROP = Property(
     "C14",
     rule=("WFQ (weights) and VC (vticks) with int and float tables, identity and many-to-one flow2class, exact and float domains; "
@@ -209,7 +236,8 @@ PROP = Property(
                              "equal stamps, different arrival instants", "creation time differs from arrival time",
                              "stamps closer than a nanosecond"]),
             Facet("VC", strategy_for("VC"), run_stamp, quick=900, thorough=5000,
-                  essential=["stamp order overrides arrival order", "equal stamps", "many-to-one flow2class"])],
+                  essential=["stamp order overrides arrival order", "equal stamps", "many-to-one flow2class"]),
+            Facet("twin", twin_strategy, run_twin, quick=400, thorough=2500, essential=["twin schedulers"])],
     assumptions=["a class is backlogged while it has packets waiting or in transmission",
                  "same-instant arrivals observed after the previous exit are not counted as waiting (set-valued decisions)"],
 )
